@@ -111,7 +111,10 @@ def job(payload):
                         out["diag_cases"] += 1
                     if m["results"]:
                         out["nontrivial"] += 1
-                if kind not in ("alias", "stream"):
+                # the order of two DIFFERENT closure values is unspecified (the hidden closure type is outside the ordering laws,
+                # and distinct blocks are ordered by where their code lives): no history comparison for order words on them
+                unordered_closures = sum(1 for o in ops if o[0] == "block") >= 2 and isinstance(w, str) and w.lstrip("?!") in ("lt", "gt", "le", "ge")
+                if kind not in ("alias", "stream") and not unordered_closures:
                     # history independence: the top |ops|+produced slots must agree (junk differs for scope/let: same junk list)
                     sig = (r["st"], sorted(zcheck.exact_key(s) for s in zcheck.eng_results(r)) if r["st"] == "done" else None, bool(r["stderr"]))
                     if first is None:
